@@ -66,7 +66,7 @@ def work(t):
   impl, d, k = t['impl'], t['d'], t['k']
   b = f32(t['decay'])
   tag = f"{impl}|d={d}|k={k}|decay={t['decay']}" + ''.join(f'|{x}={t[x]}' for x in ('gshape', 'axis', 'pad') if x in t)
-  P = Prover(timeout_s=40, first_s=3.0)
+  P = Prover(timeout_s=40, first_s=3.0, fresh=(t['impl'] == 'ds' and t['k'] >= 2))
   ctx = Ctx()
   I = Interp(ctx)
   if impl == 'sketchy':
